@@ -1,5 +1,5 @@
 // A stateful stand-in for pacman implementing the documented transitions the model assumes
-// (Pacman.v): database = $FAKEPACMAN_DB (json), every invocation appended to $FAKEPACMAN_DB.log
+// (Pacman.v; three version levels: installed `sysver`, local sync database `dbver`, mirrors `upstream`): database = $FAKEPACMAN_DB (json), every invocation appended to $FAKEPACMAN_DB.log
 use serde_json::{json, Value as J};
 use std::io::Write;
 
@@ -17,7 +17,8 @@ pub fn main(args: &[String]) -> i32 {
     if has("--query") {
         if has("--upgrades") {
             op = json!(["query-upgrades"]);
-            if db["upgradable"].as_bool().unwrap() {
+            // answered from the LOCAL sync database
+            if db["sysver"].as_u64().unwrap() < db["dbver"].as_u64().unwrap() {
                 println!("linux");
             } else {
                 rc = 1;
@@ -35,12 +36,13 @@ pub fn main(args: &[String]) -> i32 {
         }
     } else if has("--sync") && has("--refresh") && pkgs.is_empty() {
         op = json!(["refresh"]);
+        db["dbver"] = db["upstream"].clone();
         println!(":: Synchronising package databases...");
     } else if has("--sync") && has("--sysupgrade") {
         op = json!(["sysupgrade"]);
         println!(":: Starting full system upgrade...");
-        if db["upgradable"].as_bool().unwrap() {
-            db["upgradable"] = json!(false);
+        if db["sysver"].as_u64().unwrap() < db["dbver"].as_u64().unwrap() {
+            db["sysver"] = db["dbver"].clone();
             println!("upgrading linux...");
         } else {
             println!(" there is nothing to do");
